@@ -1,4 +1,5 @@
 import BddProofs.Restrict
+import BddProofs.Total
 import BddProofs.RestrictSem
 import BddProofs.Init
 /-! # C11 — restrict simplifies `f` on a care set without adding variables
@@ -49,6 +50,16 @@ theorem C11_terminal_cases {f g h : Fn} (r : RestrictRel f g h) :
 theorem C11_false (fuel : Nat) (s : St) (f : Ref) : restrict (fuel + 1) s f Ref.zero = .ok (s, Ref.zero) := by
   unfold restrict; simp [isZero]
 
+/-- it terminates without panicking, storage capacity permitting: with enough fuel it returns or stops
+with "Storage is full"; it never hits an `assert!` and never runs out of fuel -/
+theorem C11_restrict_terminates {V fuel : Nat} {s : St} {f g : Ref} {φf φg : Fn} (hg : Good s) (hV : VarsLe s V)
+    (vf : Valid s.nodes f φf) (vg : Valid s.nodes g φg)
+    (hfuel : lv s V f + lv s V g + (3 * (V + 1) * (V + 2) + V) < fuel) :
+    ((∃ s' r, restrict fuel s f g = .ok (s', r)) ∨ (∃ s', restrict fuel s f g = .error (.storageFull, s'))) ∧
+    (∀ e s', restrict fuel s f g = .error (e, s') → e = .storageFull) :=
+  let ⟨a, _, c⟩ := restrict_terminates hg hV vf vg hfuel
+  ⟨a, c⟩
+
 /-- non-vacuity -/
 example : ∃ s' r, restrict 5 s4 Ref.one Ref.one = .ok (s', r) ∧ Good s4 ∧ Valid s4.nodes Ref.one (fun _ => true) :=
   ⟨s4, Ref.one, by unfold restrict; simp [isZero, isOne, Ref.one, Ref.zero], s4_good, Valid.one⟩
@@ -62,3 +73,4 @@ end P
 #print axioms P.C11_one_when_implied
 #print axioms P.C11_terminal_cases
 #print axioms P.C11_false
+#print axioms P.C11_restrict_terminates
